@@ -25,7 +25,7 @@ func init() {
 			if tier == "quick" {
 				return 3200
 			}
-			return 16000
+			return 48000
 		},
 		Run:      runC13,
 		Required: []string{"pairs.std", "pairs.fast", "pairs.recurrent", "pairs.modular", "pairs.with_time_delayed_links", "history.ended_in_error", "history.changed_outputs", "evaluate_twice"},
